@@ -605,7 +605,9 @@ impl Check for C02 {
                 collect_kw(root, "pattern", &mut patterns);
             }
             let tagged: Vec<Value> = docs.iter().map(|(dv, _)| JsVal::from_json(dv).to_tagged()).collect();
-            let r2 = match ctx.node(json!({"op":"case","reuse":true,"queries":[
+            // (the module is sent again: the worker may have been recycled since the first round trip)
+            let (sf, nf) = crate::c01::formats_json();
+            let r2 = match ctx.node(json!({"op":"case","code":code,"stringFormats":sf,"numberFormats":nf,"queries":[
                 {"q":"validateMany","parser":name,"values":tagged,"optsList":[null]},
                 {"q":"regexTable","patterns":patterns,"strings":strings}]}))
             {
